@@ -74,6 +74,21 @@ CLAIMED.update({
             TECH, "DESIGN.md 6/C03"),
 })
 
+CLAIMED.update({
+    "C12": ("proof",
+            "Sample grid regenerated from pixman-private.h; pixman_sample_ceil_y/floor_y proved to be the least/greatest grid row with "
+            "saturation; exact Bresenham invariant of pixman_edge_init/step (incl. the fraction the code loses) proved for all edges "
+            "in the no-overflow range; one row of the a1/a4 rasteriser adds exactly the Spec sample count (a8 body partial); "
+            "additivity of sample counts across horizontal and edge splits; zero_src_has_no_effect table proved sound and tight "
+            "against the combiner model; ~3e5 raster/edge/composite requests replayed through library, model and a brute-force "
+            "sample-count Spec, plus additivity/offset/composite-vs-mask oracles on the library's own output.",
+            TB + "Partial: a8 span-fill bookkeeping, the induction over all rows of a shape and triangle decomposition are tied by "
+            "correspondence/oracle only. Known findings (recorded, not repaired: they change rendered output pinned by the suite's "
+            "CRCs): pixman_edge_step drops the error term when no carry occurs (walk-history dependence, <= 1/65536 px), int32 "
+            "overflow for |dx| >= 32768 px, get_trap_extents box in trapezoid space / from line endpoints, INT_MIN/-1 trap.",
+            TECH, "DESIGN.md 6/C12"),
+})
+
 REASON_PENDING = "not yet claimed: check under construction (DESIGN.md section 6)"
 
 
